@@ -1099,6 +1099,38 @@ def prov_hcount_bookkeeping(repo, tier="quick", fq="resolve:MoleculeResolver.edg
             both = node_attr(fl.canon(n.ast.targets[0], n.id)) is not None and node_attr(fl.canon(n.ast.targets[0], n.id))[1] in bond_ends
         (obs.append(ob_ok(oid, fi, n.ast, construct="for end in (both ends of the new bond)", instance="both-ends", reason="both atoms are updated")) if both else
          obs.append(ob_fail(oid, fi, n.ast, construct="hcount update loop", instance="both-ends", reason="the hydrogen count is not updated on both ends of the new bond")))
+    # every bond gets its bookkeeping: no way from the creation of the bond to a return that passes no update (a branch that
+    # returns early - the terminal branch of the sampler - would leave the ends of that bond with their fragment-level counts)
+    adds = []
+    for call, nid in fl.calls():
+        m = method_call(fl.canon(call, nid), "add_edge")
+        if m and len(m[2]) >= 2 and (m[0] == ("attr", ("param", fi.params[0]), "molecule") or "bonding" in m[3]):
+            adds.append(nid)
+    rets = [p_ for p_, lab in cfg.pred[cfg.exit] if lab != "exc" and not (cfg.nodes[p_].kind == "stmt" and isinstance(cfg.nodes[p_].ast, ast.Raise))]
+    store_ids = {n.id for n in stores}
+    # stores sit under guards (hydrogen ends are skipped, a missing count is skipped): the gate is the innermost statement that
+    # every path to a store passes unconditionally, i.e. the loop / if that contains it; take the outermost enclosing compound
+    gates = set(store_ids)
+    for n in stores:
+        for g_test, g_pol, g_id in guards_of(fi, n.id):
+            # only the tests on the atom itself (hydrogen ends and atoms without a count are skipped); a test on anything else
+            # that decides whether the update runs at all is exactly what this obligation is about
+            txt = ast.unparse(g_test)
+            if "hcount" in txt or "element" in txt:
+                gates.add(g_id)
+        for l in enclosing_loops(fi, n.id):
+            gates.add(l.id)
+    skipped = None
+    for a in adds:
+        for r in rets:
+            if cfg.path_exists(a, r) and not cfg.must_pass(a, {r}, gates, edge_filter=lambda a_, b_, l_: l_ != "exc"):
+                skipped = (a, r)
+    if adds:
+        (obs.append(ob_fail(oid, fi, cfg.nodes[skipped[1]].ast if cfg.nodes[skipped[1]].ast is not None else None,
+                            construct="a path from the new bond to a return passes no hcount update", instance="every-path",
+                            reason="a bond is created and the function returns without lowering the hydrogen counts of its ends")) if skipped else
+         obs.append(ob_ok(oid, fi, construct="every path from the new bond to a return passes the hcount update", instance="every-path",
+                          reason="no bond is left without its bookkeeping")))
     return obs
 
 
